@@ -158,10 +158,10 @@ def namesOf (ds : List Doc) : List String :=
     | .str s => some s
     | _ => none
 
-/-- one driver call: new system state and reply, or an error (state unchanged). -/
-def Sys.step (sch : SchemaEval) (s : Sys) (c : Call) (oids : List V) : Res (Sys × Reply) :=
-  let t0 : Txn := { catalog := s.catalog }
-  let nu := s.nu oids
+/-- one driver call executed on a transaction `t0` (a fresh one over the committed catalog for
+    plain calls, the session's transaction inside a session): the transaction after the call,
+    ν and the reply — or an error, in which case the transaction is as before. -/
+def runCall (sch : SchemaEval) (t0 : Txn) (nu : Nu) (c : Call) : Res (Txn × Nu × Reply) :=
   let ac := acOf sch
   match c with
   | .insertOne h doc =>
@@ -171,69 +171,70 @@ def Sys.step (sch : SchemaEval) (s : Sys) (c : Call) (oids : List V) : Res (Sys 
       match r.error with
       | some e => .error e       -- the transaction is still committed (nothing was inserted)
       | none => match r.modified with
-        | d :: _ => .ok (s.commit t nu, .id (Get d "_id"))
+        | d :: _ => .ok (t, nu, .id (Get d "_id"))
         | [] => .error .err
   | .insertMany h docs ordered =>
     match t0.insert sch h docs ordered nu with
     | .error e => .error e
-    | .ok (t, r, nu) => .ok (s.commit t nu, .ids (r.modified.map fun d => Get d "_id") r.error)
+    | .ok (t, r, nu) => .ok (t, nu, .ids (r.modified.map fun d => Get d "_id") r.error)
   | .find h q o =>
     match t0.find sch h q o.sort o.skip o.limit with
     | .error e => .error e
     | .ok l => match projList sch o.proj l with
       | .error e => .error e
-      | .ok l => .ok (s, .docs l)
+      | .ok l => .ok (t0, nu, .docs l)
   | .findOne h q o =>
     match t0.find sch h q o.sort o.skip 1 with
     | .error e => .error e
-    | .ok [] => .ok (s, .doc none)
+    | .ok [] => .ok (t0, nu, .doc none)
     | .ok l => match projList sch o.proj l with
       | .error e => .error e
-      | .ok l => .ok (s, .doc l.head?)
+      | .ok l => .ok (t0, nu, .doc l.head?)
   | .count h q skip limit =>
     match t0.find sch h q none skip limit with
     | .error e => .error e
-    | .ok l => .ok (s, .num l.length)
+    | .ok l => .ok (t0, nu, .num l.length)
   | .estCount h =>
     match t0.count h with
     | .error e => .error e
-    | .ok n => .ok (s, .num n)
+    | .ok n => .ok (t0, nu, .num n)
   | .distinct h field q =>
     match t0.find sch h q none 0 0 with
     | .error e => .error e
-    | .ok l => .ok (s, .vals (Distinct l field))
+    | .ok l => .ok (t0, nu, .vals (Distinct l field))
   | .updateOne h q u upsert fs =>
     match t0.update ac h q none u 0 1 upsert fs nu with
     | .error e => .error e
-    | .ok (t, r, nu) => .ok (s.commit t nu, updReply r)
+    | .ok (t, r, nu) => .ok (t, nu, updReply r)
   | .updateMany h q u upsert fs =>
     match t0.update ac h q none u 0 0 upsert fs nu with
     | .error e => .error e
-    | .ok (t, r, nu) => .ok (s.commit t nu, updReply r)
+    | .ok (t, r, nu) => .ok (t, nu, updReply r)
   | .replaceOne h q repl upsert =>
     match validateReplacement repl with
     | .error e => .error e
     | .ok _ =>
       match t0.replace ac h q none repl upsert nu with
       | .error e => .error e
-      | .ok (t, r, nu) => .ok (s.commit t nu, updReply r)
+      | .ok (t, r, nu) => .ok (t, nu, updReply r)
   | .deleteOne h q =>
     match t0.delete sch h q none 0 1 nu with
     | .error e => .error e
-    | .ok (t, r, nu) => .ok (s.commit t nu, .num r.matched.length)
+    | .ok (t, r, nu) => .ok (t, nu, .num r.matched.length)
   | .deleteMany h q =>
     match t0.delete sch h q none 0 0 nu with
     | .error e => .error e
-    | .ok (t, r, nu) => .ok (s.commit t nu, .num r.matched.length)
+    | .ok (t, r, nu) => .ok (t, nu, .num r.matched.length)
   | .findOneAndDelete h q sort proj =>
     match t0.delete sch h q sort 0 1 nu with
     | .error e => .error e
     | .ok (t, r, nu) =>
       -- the write is committed before the projection is applied
-      let s' := s.commit t nu
+      -- NOTE: the write is committed before the projection is applied (a projection error
+      -- then reports an error although the write took effect); see `runCall_projection_after_write`.
       match projOpt sch proj r.matched.head? with
       | .error e => .error e
-      | .ok d => .ok (s', .doc d)
+      | .ok d => .ok (t, nu, .doc d)
   | .findOneAndReplace h q repl sort proj upsert after =>
     match validateReplacement repl with
     | .error e => .error e
@@ -241,18 +242,16 @@ def Sys.step (sch : SchemaEval) (s : Sys) (c : Call) (oids : List V) : Res (Sys 
       match t0.replace ac h q sort repl upsert nu with
       | .error e => .error e
       | .ok (t, r, nu) =>
-        let s' := s.commit t nu
         match projOpt sch proj (famDoc r after) with
         | .error e => .error e
-        | .ok d => .ok (s', .doc d)
+        | .ok d => .ok (t, nu, .doc d)
   | .findOneAndUpdate h q u sort proj upsert after fs =>
     match t0.update ac h q sort u 0 1 upsert fs nu with
     | .error e => .error e
     | .ok (t, r, nu) =>
-      let s' := s.commit t nu
       match projOpt sch proj (famDoc r after) with
       | .error e => .error e
-      | .ok d => .ok (s', .doc d)
+      | .ok d => .ok (t, nu, .doc d)
   | .bulkWrite h models ordered =>
     match models.find? (fun m => match m with
         | .replaceOne _ r _ => (validateReplacement r).toBool == false
@@ -278,53 +277,59 @@ def Sys.step (sch : SchemaEval) (s : Sys) (c : Call) (oids : List V) : Res (Sys 
                 | some d => .bulk ins (mat + r.matched.length) (mod + r.modified.length) del (ups + 1) (uids ++ [(i, Get d "_id")]) errs
                 | none => .bulk ins (mat + r.matched.length) (mod + r.modified.length) del ups uids errs
           | other => other) (.bulk 0 0 0 0 0 [] [])
-        .ok (s.commit t nu, rep)
+        .ok (t, nu, rep)
   | .createIndex h name config =>
     match t0.createIndex sch h name config with
     | .error e => .error e
-    | .ok (t, name) => .ok (s.commit t nu, .name name)
+    | .ok (t, name) => .ok (t, nu, .name name)
   | .dropIndex h name =>
     match t0.dropIndex h name with
     | .error e => .error e
-    | .ok t => .ok (s.commit t nu, .unit)
+    | .ok t => .ok (t, nu, .unit)
   | .dropAllIndexes h =>
     match t0.dropIndex h "" with
     | .error e => .error e
-    | .ok t => .ok (s.commit t nu, .unit)
+    | .ok t => .ok (t, nu, .unit)
   | .dropIndexByKey h key =>
     match t0.dropIndexByKey h key with
     | .error e => .error e
-    | .ok t => .ok (s.commit t nu, .unit)
+    | .ok t => .ok (t, nu, .unit)
   | .listIndexes h =>
     match t0.listIndexes h with
     | .error e => .error e
-    | .ok l => .ok (s, .docs l)
+    | .ok l => .ok (t0, nu, .docs l)
   | .createCollection h =>
     match t0.create h with
     | .error e => .error e
-    | .ok t => .ok (s.commit t nu, .unit)
+    | .ok t => .ok (t, nu, .unit)
   | .dropCollection h =>
     match t0.drop h nu with
     | .error e => .error e
-    | .ok (t, nu) => .ok (s.commit t nu, .unit)
+    | .ok (t, nu) => .ok (t, nu, .unit)
   | .dropDatabase db =>
     match t0.drop ⟨db, ""⟩ nu with
     | .error e => .error e
-    | .ok (t, nu) => .ok (s.commit t nu, .unit)
+    | .ok (t, nu) => .ok (t, nu, .unit)
   | .listCollections db q =>
     match (Handle.mk db "").validate false with
     | .error e => .error e
     | .ok _ =>
-      match filterPlain sch q (listCollectionDocs s.catalog db) with
+      match filterPlain sch q (listCollectionDocs t0.catalog db) with
       | .error e => .error e
-      | .ok l => .ok (s, .names (namesOf (sortDocs l [{ path := "name", reverse := false }])))
+      | .ok l => .ok (t0, nu, .names (namesOf (sortDocs l [{ path := "name", reverse := false }])))
   | .listDatabases q =>
-    match filterPlain sch q (listDatabaseDocs s.catalog) with
+    match filterPlain sch q (listDatabaseDocs t0.catalog) with
     | .error e => .error e
-    | .ok l => .ok (s, .names (namesOf (sortDocs l [{ path := "name", reverse := false }])))
+    | .ok l => .ok (t0, nu, .names (namesOf (sortDocs l [{ path := "name", reverse := false }])))
   | .expire nowMs =>
     match t0.expire sch nowMs nu with
     | .error e => .error e
-    | .ok (t, n, nu) => .ok (s.commit t nu, .num n)
+    | .ok (t, n, nu) => .ok (t, nu, .num n)
+
+/-- one driver call outside any session: Begin → call → Commit. -/
+def Sys.step (sch : SchemaEval) (s : Sys) (c : Call) (oids : List V) : Res (Sys × Reply) :=
+  match runCall sch { catalog := s.catalog } (s.nu oids) c with
+  | .error e => .error e
+  | .ok (t, nu, r) => .ok (s.commit t nu, r)
 
 end Lungo
